@@ -260,3 +260,8 @@ def run(ctx):
         # `synced` answers a sync request exactly once: a marker recorded on the lane's uplink entry must put the lane into the write queue, or the
         # request is never answered on this link and the stale marker produces a `synced` nobody asked for on a later one
         uplinks.queued_flag_discipline(r, ctx)
+
+    with ctx.rule("C04.R13", "T2", "the sender lent out of Uplinks.writer always comes back: as a WriteTask or into the slot (shared with C01.R7)", floor=4) as r:
+        # a sender that is dropped leaves the remote attached and linked while nothing is ever written to it again (F61)
+        uplinks.writer_token(r, ctx)
+
